@@ -273,6 +273,26 @@ func init() {
 		after, _ := os.ReadFile(path)
 		return lerr != nil && serr == nil && string(after) != full, fmt.Sprintf("LoadFilteredPolicy err=%v; SavePolicy err=%v; file now %q (was %q)", lerr, serr, string(after), full)
 	}
+	// D32: GetImplicitUsersForResource expands a role by its direct users only
+	witnesses["D32-implicit-users-for-resource-one-level"] = func() (bool, string) {
+		e, _ := casbin.NewEnforcer(mustModel(rbacText))
+		e.AddGroupingPolicy("alice", "team")
+		e.AddGroupingPolicy("team", "admin")
+		e.AddPolicy("admin", "d", "read")
+		got, _ := e.GetImplicitUsersForResource("d")
+		ok, _ := e.Enforce("alice", "d", "read")
+		listed := false
+		roleListed := false
+		for _, r := range got {
+			if r[0] == "alice" {
+				listed = true
+			}
+			if r[0] == "team" || r[0] == "admin" {
+				roleListed = true
+			}
+		}
+		return ok && (!listed || roleListed), fmt.Sprintf("g alice->team->admin, p admin d read: Enforce(alice,d,read)=%v GetImplicitUsersForResource(d)=%v", ok, got)
+	}
 	// D30: a rule whose priority does not parse was a barrier for the priority insertion
 	witnesses["D30-unparsable-priority-barrier"] = func() (bool, string) {
 		text := strings.Replace(strings.Replace(rbacText, "some(where (p.eft == allow))", "priority(p.eft) || deny", 1), "p = sub, obj, act", "p = priority, sub, obj, act, eft", 1)
